@@ -7,3 +7,18 @@ claimed["C16"] = (
     "trusts math/big and the harness' own grammar (DESIGN.md App. A); floats limited to <=6 decimals because the SDK prints %f; unspecified strings (bare numbers, repeated units) only checked for 'never a wrong number'",
     "DESIGN.md §3 C16",
 )
+
+claimed["C18"] = (
+    "exploration",
+    "runtime oracle: exhaustive signature x declaration matrix through the real constructors and Call, compared with a reference acceptance predicate; recording handlers",
+    "Handlers are synthesised with reflect.MakeFunc for the full matrix of 0..3 (thorough: 0..4) parameters over 11 native types x 11 result shapes (incl. a non-error type named `error`, extra results, error first) x declared inputs/output/error flag; NewCallableFunction and NewDynamicCallableFunction verdicts are compared with an independently written predicate, and every accepted function is called with 0..4 arguments, with and without a handler error. The matrix is enumerated completely.",
+    "trusts reflect.FuncOf/MakeFunc; only signatures vary, not handler bodies; dynamic handlers returning a non-empty interface are unspecified and skipped",
+    "DESIGN.md §3 C18",
+)
+claimed["C19"] = (
+    "exploration",
+    "runtime monitor over generator subprocess runs: exit status, go/parser re-parse against the expected struct/field multiset, byte-identity across repeated runs",
+    "The generator binary is rebuilt from the working tree and run 6x per (generated YAML, argument form) in a private directory; failures, unparseable output, wrong struct/field sets and run-to-run differences (map iteration order) are violations. Held on the generated inputs; one known finding (type_id map).",
+    "identifiers are ASCII without underscores and unique ignoring case (title-casing is delegated to x/text); Go keywords are not identifiers and are not generated as names",
+    "DESIGN.md §3 C19",
+)
